@@ -26,10 +26,20 @@ def fs(n, length, oracles, wild=False, rs="20,1,3,7", timeout=1500, extra=None, 
     return {"stream": "fs", "args": a, "timeout": timeout}
 
 
+PIPES_QUICK = "gzip++;+age+;++minisign;zstandard+age+minisign;lz4+pgp+pgp;brotli+age+;bzip2++pgp;parallelgzip+pgp+minisign"
+PIPES_ALL = ";".join("%s+%s+%s" % (c, e, s) for c in ["", "gzip", "parallelgzip", "lz4", "zstandard", "brotli", "bzip2", "parallelbzip2"] for e in ["", "age", "pgp"] for s in ["", "minisign", "pgp"])
+
+
+def fsp(n, length, oracles, pipes=PIPES_QUICK, **kw):
+    d = fs(n, length, oracles, **kw)
+    d["args"] += ["-pipes", pipes, "-keys", "/verif/work/keys"]
+    return d
+
+
 PLAN = {
     "C04": {
         "streams": {
-            "quick": [fs(160, 14, "C04"), fs(80, 14, "C04", wild=True)],
+            "quick": [fs(160, 14, "C04"), fs(80, 14, "C04", wild=True), fsp(64, 12, "C04", rs="20,3")],
             "thorough": [fs(3000, 18, "C04", rs="20,1,2,3,7,64", timeout=5000), fs(1500, 18, "C04", wild=True, rs="20,1,2,3,7,64", timeout=5000)],
         },
         "generated": ["Stfs/Gen/PosArith.lean (pkg/recovery/index.go, query.go, fetch.go)", "Stfs/Gen/Consts.lean"],
@@ -74,8 +84,9 @@ PLAN = {
     },
     "C01": {
         "streams": {
-            "quick": [fs(120, 16, "C01"), fs(60, 14, "C01", wild=True), fs(60, 20, "", mode="reopen")],
-            "thorough": [fs(2000, 20, "C01", rs="20,1,2,3,7,64", timeout=6000), fs(1000, 18, "C01", wild=True, timeout=6000), fs(1000, 24, "", mode="reopen", timeout=3000)],
+            "quick": [fs(120, 16, "C01"), fs(60, 14, "C01", wild=True), fs(60, 20, "", mode="reopen"), fsp(96, 14, "C01", rs="20,3")],
+            "thorough": [fs(2000, 20, "C01", rs="20,1,2,3,7,64", timeout=6000), fs(1000, 18, "C01", wild=True, timeout=6000), fs(1000, 24, "", mode="reopen", timeout=3000),
+                         fsp(1440, 16, "C01", pipes=PIPES_ALL, rs="20,3", timeout=7000)],
         },
         "generated": ["Stfs/Gen/PosArith.lean", "Stfs/Gen/Consts.lean (record keys, suffix tables)"],
         "trusted_base": BASE_TRUST,
@@ -102,8 +113,8 @@ PLAN = {
     },
     "C02": {
         "streams": {
-            "quick": [fs(240, 18, "C02"), fs(100, 16, "C02", wild=True)],
-            "thorough": [fs(4000, 22, "C02", rs="20,1,3,7,64", timeout=6000), fs(2000, 20, "C02", wild=True, timeout=6000)],
+            "quick": [fs(240, 18, "C02"), fs(100, 16, "C02", wild=True), fsp(96, 14, "C02", rs="20,3")],
+            "thorough": [fs(4000, 22, "C02", rs="20,1,3,7,64", timeout=6000), fs(2000, 20, "C02", wild=True, timeout=6000), fsp(1440, 16, "C02", pipes=PIPES_ALL, rs="20,3", timeout=7000)],
         },
         "generated": ["Stfs/Gen/Guards.lean", "Stfs/Gen/Consts.lean"],
         "trusted_base": BASE_TRUST,
